@@ -221,8 +221,9 @@ def run_pack(keys, kname='CubicSpline'):
     from pysph.base.nnps import LinkedListNNPS
     from pysph.sph.acceleration_eval import AccelerationEval
     from pysph.sph.sph_compiler import SPHCompiler
-    from vlib.ref.sph_interp import Interp
+    from vlib.ref.sph_interp import Interp, Prop
     from vlib import propreg, build
+    Prop.C_DIVISION = False
     types, strides = propreg.harvest(build.work_dir())
     kernel = getattr(K, kname)(dim=2)
     sides = {}
